@@ -98,8 +98,13 @@ def process_all_requirements(pyscript_folder, requirements_paths, requirements_f
                 if len(parts) == 1:
                     new_version = UNPINNED_VERSION
                 else:
-                    new_version = parts[1]
-                pkg_name = parts[0]
+                    new_version = parts[1].strip()
+                    # a pin that is not a version (InvalidVersion is a ValueError) is skipped like
+                    # any other invalid line, wherever it comes in the files
+                    Version(new_version)
+                pkg_name = parts[0].strip()
+                if not pkg_name:
+                    raise ValueError("missing package name")
 
                 current_pinned_version = all_requirements_to_install.get(pkg_name, {}).get(ATTR_VERSION)
                 current_sources = all_requirements_to_install.get(pkg_name, {}).get(ATTR_SOURCES, [])
